@@ -1,6 +1,7 @@
 package rules
 
 import (
+	"strings"
 	"fmt"
 	"go/types"
 
@@ -107,6 +108,9 @@ func c07Naming(c *core.Ctx, r *core.Report) {
 	}
 	smallModelCheck(c, r, "C07.R3", "component-name@"+core.FnName(nameFn), nameFn, 1)
 	r.Check(bad == "", "C07.R3", "component-name@"+core.FnName(nameFn), c.FnPos(nameFn), fmt.Sprintf("the registration name is the custom name when it is non-empty and the default package/type id otherwise (%d abstract runs) %s", runs, bad))
+
+	aliasTable(c, r, "C07.R3")
+	typeIdTable(c, r, "C07.R3")
 
 	// (ii) GetMetaOrRegister stores a definition whose Name() is the key
 	sync2Map := c.Named("util/sync2", "Map")
@@ -312,4 +316,143 @@ func c07InjectsWriters(c *core.Ctx, r *core.Report, ps []*procInfo) {
 		r.Check(ok, "C07.R6", "Injects-writer@"+core.FnName(st.Fn), c.Pos(st.Instr.Pos()), "Property.Injects is written only by functions whose stored lists are decided to be nil-free: "+why)
 	}
 	r.Floor("C07.R6", "writers of Property.Injects", len(stores), 4)
+}
+
+// aliasTable: GetComponentNameWithAlias yields the default package/type id and, as alias, the custom name - empty
+// exactly when the component declares none (an empty Naming() counts as none).  "Has a custom name" is derived from it.
+func aliasTable(c *core.Ctx, r *core.Report, rule string) {
+	fn := c.Func("util/framework_helper", "GetComponentNameWithAlias")
+	idFn := c.Func("util/reflectx", "Id")
+	naming := c.Named("definition", "NamingComponent")
+	namingM := c.IfaceMethod("definition", "NamingComponent", "Naming")
+	if fn == nil || naming == nil || namingM == nil {
+		r.Undecided(rule, "role:GetComponentNameWithAlias", "", "framework_helper.GetComponentNameWithAlias / definition.NamingComponent not found")
+		return
+	}
+	bad := ""
+	runs := 0
+	for _, alias := range []string{"", "custom"} {
+		for _, isNaming := range []bool{true, false} {
+			build := func() (absint.Oracle, []absint.Value, []absint.Value) {
+				t := newTbl(c)
+				comp := absint.NewTok("component", "component")
+				if idFn != nil {
+					t.callee[idFn] = func(ip *absint.Interp, a []absint.Value) absint.Value { return absint.Str("pkg/T") }
+				}
+				t.typeTest = func(v absint.Value, T types.Type) (bool, bool) {
+					if types.Identical(T, naming) {
+						return isNaming, true
+					}
+					if n := core.NamedOf(T); n != nil && n.Obj().Pkg() != nil && n.Obj().Pkg().Path() == "reflect" {
+						return false, true
+					}
+					return false, false
+				}
+				t.invoke[namingM] = func(ip *absint.Interp, a []absint.Value) absint.Value { return absint.Str(alias) }
+				return t, []absint.Value{comp}, nil
+			}
+			check := func(ip *absint.Interp, out absint.Outcome) {
+				wantAlias := ""
+				if isNaming {
+					wantAlias = alias
+				}
+				if out.Panic != nil || len(out.Ret) != 2 || out.Ret[0] != absint.Value(absint.Str("pkg/T")) || out.Ret[1] != absint.Value(absint.Str(wantAlias)) {
+					bad = fmt.Sprintf("naming=%v Naming()=%q => %s, want (\"pkg/T\", %q)", isNaming, alias, showOutcome(out), wantAlias)
+				}
+			}
+			k, u := runTable(c, fn, build, check)
+			runs += k
+			if u != "" {
+				bad = "left the model: " + u
+			}
+		}
+	}
+	r.Check(bad == "", rule, "component-alias@"+core.FnName(fn), c.FnPos(fn), fmt.Sprintf("the alias of a component is its custom name and is empty exactly when it declares none (%d abstract runs) %s", runs, bad))
+	// IsAlias() is alias != ""
+	meta := c.Named("component_definition", "Meta")
+	if isAlias := c.DeclaredMethod(meta, "IsAlias"); isAlias != nil {
+		bad2 := ""
+		for _, a := range []string{"", "x"} {
+			t := newTbl(c)
+			m := absint.NewTok("m", "meta")
+			m.Fields["alias"] = absint.Str(a)
+			ip := absint.New(t)
+			ip.IsLog, ip.InScope = core.IsLogCall, c.InScope
+			out := ip.Run(isAlias, []absint.Value{m}, nil)
+			if out.Undecided != nil {
+				bad2 = "left the model: " + out.Undecided.Msg
+			} else if out.Panic != nil || len(out.Ret) != 1 || out.Ret[0] != absint.Value(absint.Bool(a != "")) {
+				bad2 = fmt.Sprintf("alias=%q => %s", a, showOutcome(out))
+			}
+		}
+		r.Check(bad2 == "", rule, "is-alias@"+core.FnName(isAlias), c.FnPos(isAlias), "a definition counts as custom-named exactly when its alias is non-empty "+bad2)
+	}
+}
+
+// typeIdTable: the default name of a type is its package path joined with its type name - a function of the type alone:
+// two types that print alike but live in different packages get different names, in either order of asking, and asking
+// again gives the same answer (whatever the helper remembers between calls).
+func typeIdTable(c *core.Ctx, r *core.Report, rule string) {
+	fn := c.Func("util/reflectx", "TypeId")
+	if fn == nil {
+		r.Undecided(rule, "role:TypeId", "", "reflectx.TypeId not found")
+		return
+	}
+	type ty struct{ pkg, name, str string }
+	types3 := []ty{{"text/template", "Template", "template.Template"}, {"html/template", "Template", "template.Template"}, {"a/b", "Other", "b.Other"}}
+	bad := ""
+	runs := 0
+	for _, order := range [][]int{{0, 1, 2, 0, 1}, {1, 0, 1, 2, 0}, {2, 1, 0}} {
+		for _, viaPtr := range []bool{false, true} {
+			t := newTbl(c)
+			stringModels(t)
+			t.ext["path.Join"] = func(ip *absint.Interp, a []absint.Value) absint.Value {
+				l, _ := a[0].(*absint.List)
+				var parts []string
+				if l != nil {
+					for _, e := range l.Elems {
+						s, _ := e.(absint.Str)
+						parts = append(parts, string(s))
+					}
+				}
+				return absint.Str(strings.Join(parts, "/"))
+			}
+			attr := func(name string) func(ip *absint.Interp, a []absint.Value) absint.Value {
+				return func(ip *absint.Interp, a []absint.Value) absint.Value {
+					if tk, ok := a[0].(*absint.Tok); ok && tk.Attr[name] != nil {
+						return tk.Attr[name]
+					}
+					panic(&absint.Undecided{Msg: name + " of an unmodelled type"})
+				}
+			}
+			t.invokeN["Kind"], t.invokeN["Elem"], t.invokeN["Name"] = attr("kind"), attr("elem"), attr("name")
+			t.invokeN["PkgPath"], t.invokeN["String"] = attr("pkg"), attr("str")
+			ip := absint.New(t)
+			ip.IsLog, ip.InScope = core.IsLogCall, c.InScope
+			toks := map[int]*absint.Tok{}
+			for i, x := range types3 {
+				tk := absint.NewTok("T:"+x.pkg+"."+x.name, "type")
+				tk.Attr["kind"], tk.Attr["name"], tk.Attr["pkg"], tk.Attr["str"] = absint.Int(25), absint.Str(x.name), absint.Str(x.pkg), absint.Str(x.str)
+				toks[i] = tk
+			}
+			for _, i := range order {
+				arg := absint.Value(toks[i])
+				if viaPtr {
+					p := absint.NewTok("T:*"+types3[i].str, "type")
+					p.Attr["kind"], p.Attr["elem"], p.Attr["name"], p.Attr["pkg"], p.Attr["str"] = absint.Int(22), toks[i], absint.Str(""), absint.Str(""), absint.Str("*"+types3[i].str)
+					arg = p
+				}
+				out := ip.Run(fn, []absint.Value{arg}, nil)
+				runs++
+				want := types3[i].pkg + "/" + types3[i].name
+				switch {
+				case out.Undecided != nil:
+					bad = "left the model: " + out.Undecided.Msg
+				case out.Panic != nil || len(out.Ret) != 1 || out.Ret[0] != absint.Value(absint.Str(want)):
+					bad = fmt.Sprintf("asking order %v (pointer=%v): TypeId(%s.%s) => %s, want %q", order, viaPtr, types3[i].pkg, types3[i].name, showOutcome(out), want)
+				}
+			}
+		}
+	}
+	r.Check(bad == "", rule, "type-id@"+core.FnName(fn), c.FnPos(fn), fmt.Sprintf("the default name of a type is <package path>/<type name>, whatever was asked before (%d abstract runs) %s", runs, bad))
 }
